@@ -4,7 +4,9 @@ package c02
 
 import (
 	"bytes"
+	"encoding/hex"
 	"fmt"
+	"strings"
 
 	"github.com/c2FmZQ/ech"
 
@@ -18,6 +20,25 @@ import (
 )
 
 const innerName = "inner.secret.example"
+
+// the canonical small-order points of Curve25519 (and non-canonical encodings of some of them)
+var lowOrderPoints = func() [][]byte {
+	hexs := []string{
+		"0000000000000000000000000000000000000000000000000000000000000000",
+		"0100000000000000000000000000000000000000000000000000000000000000",
+		"e0eb7a7c3b41b8ae1656e3faf19fc46ada098deb9c32b1fd866205165f49b800",
+		"5f9c95bca3508c24b1d0b1559c83ef5b04445cc4581c8e86d8224eddd09f1157",
+		"ecffffffffffffffffffffffffffffffffffffffffffffffffffffffffffff7f",
+		"edffffffffffffffffffffffffffffffffffffffffffffffffffffffffffff7f",
+		"eeffffffffffffffffffffffffffffffffffffffffffffffffffffffffffff7f",
+	}
+	var out [][]byte
+	for _, h := range hexs {
+		b, _ := hex.DecodeString(h)
+		out = append(out, b)
+	}
+	return out
+}()
 
 type base struct {
 	AEAD     uint16 `json:"aead"`
@@ -66,7 +87,9 @@ func evalMutated(r *ev.Run, m mutation, stream []byte, keys []ech.Key, goKeys []
 		}
 	}
 	// second opinion: crypto/tls with the same keys must not accept either (else the mutation is not one)
-	if seen, err := tlsx.GoServerSees(stream, goKeys); err == nil && seen.ServerName == innerName {
+	// (crypto/tls performs trial decryption: it ignores the config id and the config's suite list, which the draft
+	// permits; the property under check is stricter, so the two "consistent-hello" kinds are exempt here)
+	if seen, err := tlsx.GoServerSees(stream, goKeys); err == nil && seen.ServerName == innerName && !strings.HasPrefix(m.Kind, "consistent-hello") {
 		r.Add("go_accepts_mutated", 1)
 		r.Violation("oracle-disagreement:"+m.Kind, "crypto/tls accepts this 'mutated' hello: the mutation does not break authenticity (check generator)", replay)
 	}
@@ -74,7 +97,7 @@ func evalMutated(r *ev.Run, m mutation, stream []byte, keys []ech.Key, goKeys []
 }
 
 func Run(r *ev.Run) {
-	r.Rule("fault enumeration (E1): base tuples = 3 AEADs x inner with/without outer-extension compression x ECH extension first/middle/last x session id 0/32 bytes, sealed by the reference sender; per base: EVERY single-bit flip of the outer ClientHello handshake message, every truncation of enc and of payload (consistent length prefixes), enc replaced by another valid point, wrong private key (same id), config differing in one byte (wrong info), suite id altered in the extension, suite absent from the config, wrong config id, payload sealed at sequence number 1, payload sealed for another outer hello. distinct = distinct (stream, key set) pairs")
+	r.Rule("fault enumeration (E1): base tuples = 3 AEADs x inner with/without outer-extension compression x ECH extension first/middle/last x session id 0/32 bytes, sealed by the reference sender; per base: EVERY single-bit flip of the outer ClientHello handshake message, every truncation of enc and of payload (consistent length prefixes), enc replaced by another valid point, wrong private key (same id), config differing in one byte (wrong info), suite id altered in the extension, suite absent from the config, wrong config id, payload sealed at sequence number 1, payload sealed for another outer hello, 1..32 zero/non-zero bytes inserted after the extensions block, an extension added/removed after sealing, hellos sealed consistently but naming a config id the server does not hold or a suite its config does not list, payloads forged from public data for 7 low-order X25519 points as enc. distinct = distinct (stream, key set) pairs")
 	r.Assume("reference sender validated against crypto/tls on every run", "bit flips cover the handshake message (header+body), not the 5-byte record header, which is not authenticated by ECH")
 	key := echx.NewKey("c02", 42, echx.AllSuites, "public.example")
 	if err := c03.SelfValidate(echx.NewKey("c03", 7, echx.AllSuites, "public.example")); err != nil {
@@ -184,6 +207,68 @@ func Run(r *ev.Run) {
 		o := built.Outer.Clone()
 		o.Exts[s.EchIdx] = aext
 		jobs = append(jobs, job{mutation{b, "payload-from-other-outer", 0}, o.Record(), keys})
+		// bytes inserted after the extensions block (lengths fixed up): not covered by the AAD the server rebuilds
+		for _, n := range []int{1, 2, 7, 32} {
+			for _, fill := range []byte{0x00, 0x01} {
+				h := built.Outer.Clone()
+				h.Trailer = bytes.Repeat([]byte{fill}, n)
+				jobs = append(jobs, job{mutation{b, fmt.Sprintf("trailing-bytes-after-extensions-%02x", fill), n}, h.Record(), keys})
+			}
+		}
+		// an extra (unknown) extension appended after sealing, and an extension removed after sealing
+		{
+			h := built.Outer.Clone()
+			h.Exts = append(h.Exts, tlsref.Ext{Type: 0x7b7b, Data: []byte{1}})
+			jobs = append(jobs, job{mutation{b, "extension-added-after-sealing", 0}, h.Record(), keys})
+			h2 := built.Outer.Clone()
+			for i, e := range h2.Exts {
+				if e.Type == tlsref.ExtPSKModes {
+					h2.Exts = append(h2.Exts[:i:i], h2.Exts[i+1:]...)
+					break
+				}
+			}
+			jobs = append(jobs, job{mutation{b, "extension-removed-after-sealing", 0}, h2.Record(), keys})
+		}
+		// CONSISTENTLY sealed hellos (AAD and info as the client sees them) that name a config id the server does not
+		// hold, although the HPKE key is one the server holds: acceptance would mean trial decryption with unnamed keys
+		for _, id := range []byte{9, 200} {
+			fake := key
+			fake.Cfg.ID = id // the client's view: same public key and config bytes (info), other id in the extension
+			s4 := s
+			s4.Key = fake
+			jobs = append(jobs, job{mutation{b, "consistent-hello-naming-unheld-config-id", int(id)}, s4.Build().Outer.Record(), keys})
+		}
+		// consistently sealed with a suite the server's config does not list (server config = client's info, so HPKE would open)
+		{
+			var listed []tlsref.Suite
+			for _, su := range echx.AllSuites {
+				if su.AEAD != b.AEAD {
+					listed = append(listed, su)
+				}
+			}
+			kk := echx.NewKey("c02-unlisted", 42, listed, "public.example") // config lists only the other two AEADs
+			s5 := s
+			s5.Key = kk // client seals with b.AEAD although kk's config does not list it
+			jobs = append(jobs, job{mutation{b, "consistent-hello-with-unlisted-suite", int(b.AEAD)}, s5.Build().Outer.Record(), echx.Keys(kk)})
+		}
+		// degenerate encapsulated keys: low-order X25519 points make the DH output predictable (all zero / rejected);
+		// forge the payload from the public config only, for both predictions of the receiver's DH value
+		for pi, pt := range lowOrderPoints {
+			for di, dh := range [][]byte{nil, make([]byte, 32)} {
+				ctx, err := hpkeref.SetupFromDH(dh, pt, key.Cfg.PublicKey, 1, b.AEAD, append([]byte("tls ech\x00"), key.Cfg.Raw...))
+				if err != nil {
+					continue
+				}
+				o := s.Outer.Clone()
+				inner := s.InnerBase.Clone()
+				inner.Exts = s.EncInner
+				enc := tlsref.EncodeInner(inner, s.Padding)
+				o.Exts[s.EchIdx] = tlsref.ECHOuter(1, b.AEAD, 42, pt, make([]byte, len(enc)+16))
+				payload := ctx.Seal(o.Body(), enc)
+				o.Exts[s.EchIdx] = tlsref.ECHOuter(1, b.AEAD, 42, pt, payload)
+				jobs = append(jobs, job{mutation{b, "forged-with-low-order-enc", pi*2 + di}, o.Record(), keys})
+			}
+		}
 		// info string without the config (sender uses a wrong info)
 		s3 := s
 		s3.Info = []byte("tls ech\x00")
